@@ -1358,7 +1358,7 @@ func specEntryStruct(e *p4.TableEntry) bool {
 // table has ternary/range fields.
 
 //@ func (t *P4rtTranslator) buildUplinkSessionsEntry(pdr pdr, sessMeterIdx uint32) (entry *p4.TableEntry, err error)
-//@   freshwrites p4.TableEntry, p4.TableAction, p4.TableAction_Action, p4.Action
+//@   freshwrites p4.TableEntry, p4.TableAction, p4.TableAction_Action, p4.Action, p4.FieldMatch, p4.FieldMatch_Exact, p4.FieldMatch_Exact_, p4.FieldMatch_LPM, p4.FieldMatch_Lpm, p4.FieldMatch_Range, p4.FieldMatch_Range_, p4.FieldMatch_Ternary, p4.FieldMatch_Ternary_, p4.Action_Param, E:uint8
 //@   defines err == nil ==> gfield("p4e.kind", refOf(entry)) == 1 && gfield("p4e.n3", refOf(entry)) == uint64(pdr.tunnelIP4Dst) && gfield("p4e.teid", refOf(entry)) == uint64(pdr.tunnelTEID) && gfield("p4e.meter", refOf(entry)) == uint64(sessMeterIdx)
 //@   requires t != nil
 //@   requires C16.up.meteridx: int64(sessMeterIdx) < oracleP4MeterSize(p4constants.MeterPreQosPipeSessionMeter)
@@ -1368,7 +1368,7 @@ func specEntryStruct(e *p4.TableEntry) bool {
 //@   ensures C04.sessup.params: err == nil ==> glen("p4p") == old[int](glen("p4p"))+1 && specP4ParamLogged(gentry("p4p", old[int](glen("p4p"))), specEntryAction(entry), "session_meter_idx", uint64(sessMeterIdx))
 
 //@ func (t *P4rtTranslator) buildDownlinkSessionsEntry(pdr pdr, sessMeterIdx uint32, tunnelPeerID uint8, needsBuffering bool) (entry *p4.TableEntry, err error)
-//@   freshwrites p4.TableEntry, p4.TableAction, p4.TableAction_Action, p4.Action
+//@   freshwrites p4.TableEntry, p4.TableAction, p4.TableAction_Action, p4.Action, p4.FieldMatch, p4.FieldMatch_Exact, p4.FieldMatch_Exact_, p4.FieldMatch_LPM, p4.FieldMatch_Lpm, p4.FieldMatch_Range, p4.FieldMatch_Range_, p4.FieldMatch_Ternary, p4.FieldMatch_Ternary_, p4.Action_Param, E:uint8
 //@   defines err == nil ==> gfield("p4e.kind", refOf(entry)) == 2 && gfield("p4e.ue", refOf(entry)) == uint64(pdr.ueAddress) && gfield("p4e.buff", refOf(entry)) == specB2U(needsBuffering) && gfield("p4e.peer", refOf(entry)) == uint64(tunnelPeerID) && gfield("p4e.meter", refOf(entry)) == uint64(sessMeterIdx)
 //@   requires t != nil
 //@   requires C16.down.meteridx: int64(sessMeterIdx) < oracleP4MeterSize(p4constants.MeterPreQosPipeSessionMeter)
@@ -1380,7 +1380,7 @@ func specEntryStruct(e *p4.TableEntry) bool {
 //@   ensures C04.sessdown.fwd: err == nil && !needsBuffering ==> glen("p4p") == old[int](glen("p4p"))+2 && specP4ParamLogged(gentry("p4p", old[int](glen("p4p"))), specEntryAction(entry), "tunnel_peer_id", uint64(tunnelPeerID)) && specP4ParamLogged(gentry("p4p", old[int](glen("p4p"))+1), specEntryAction(entry), "session_meter_idx", uint64(sessMeterIdx))
 
 //@ func (t *P4rtTranslator) buildUplinkTerminationsEntry(pdr pdr, appMeterIdx uint32, shouldDrop bool, internalAppID uint8, tc uint8, relatedQER qer) (entry *p4.TableEntry, err error)
-//@   freshwrites p4.TableEntry, p4.TableAction, p4.TableAction_Action, p4.Action
+//@   freshwrites p4.TableEntry, p4.TableAction, p4.TableAction_Action, p4.Action, p4.FieldMatch, p4.FieldMatch_Exact, p4.FieldMatch_Exact_, p4.FieldMatch_LPM, p4.FieldMatch_Lpm, p4.FieldMatch_Range, p4.FieldMatch_Range_, p4.FieldMatch_Ternary, p4.FieldMatch_Ternary_, p4.Action_Param, E:uint8
 //@   defines err == nil ==> gfield("p4e.kind", refOf(entry)) == 3 && gfield("p4e.ue", refOf(entry)) == uint64(pdr.ueAddress) && gfield("p4e.app", refOf(entry)) == uint64(internalAppID) && gfield("p4e.drop", refOf(entry)) == specB2U(shouldDrop || relatedQER.ulStatus == ie.GateStatusClosed) && gfield("p4e.tc", refOf(entry)) == uint64(tc) && gfield("p4e.meter", refOf(entry)) == uint64(appMeterIdx) && gfield("p4e.ctr", refOf(entry)) == uint64(pdr.ctrID)
 //@   requires t != nil
 //@   requires C16.termup.envelope: tc <= 3 && int64(appMeterIdx) < oracleP4MeterSize(p4constants.MeterPreQosPipeAppMeter) && int64(pdr.ctrID) < oracleP4CounterSize(p4constants.CounterPreQosPipePreQosCounter)
@@ -1390,7 +1390,7 @@ func specEntryStruct(e *p4.TableEntry) bool {
 //@   ensures C04.termup.fwd: err == nil && !(shouldDrop || relatedQER.ulStatus == ie.GateStatusClosed) ==> specEntryShape(entry, 3) && entry.TableId == p4constants.TablePreQosPipeTerminationsUplink && specEntryAction(entry).ActionId == p4constants.ActionPreQosPipeUplinkTermFwd && glen("p4p") == old[int](glen("p4p"))+3 && specP4ParamLogged(gentry("p4p", old[int](glen("p4p"))), specEntryAction(entry), "tc", uint64(tc)) && specP4ParamLogged(gentry("p4p", old[int](glen("p4p"))+1), specEntryAction(entry), "app_meter_idx", uint64(appMeterIdx)) && specP4ParamLogged(gentry("p4p", old[int](glen("p4p"))+2), specEntryAction(entry), "ctr_idx", uint64(pdr.ctrID))
 
 //@ func (t *P4rtTranslator) buildDownlinkTerminationsEntry(pdr pdr, appMeterIdx uint32, relatedFAR far, internalAppID uint8, qfi uint8, tc uint8, relatedQER qer) (entry *p4.TableEntry, err error)
-//@   freshwrites p4.TableEntry, p4.TableAction, p4.TableAction_Action, p4.Action
+//@   freshwrites p4.TableEntry, p4.TableAction, p4.TableAction_Action, p4.Action, p4.FieldMatch, p4.FieldMatch_Exact, p4.FieldMatch_Exact_, p4.FieldMatch_LPM, p4.FieldMatch_Lpm, p4.FieldMatch_Range, p4.FieldMatch_Range_, p4.FieldMatch_Ternary, p4.FieldMatch_Ternary_, p4.Action_Param, E:uint8
 //@   defines err == nil ==> gfield("p4e.kind", refOf(entry)) == 4 && gfield("p4e.ue", refOf(entry)) == uint64(pdr.ueAddress) && gfield("p4e.app", refOf(entry)) == uint64(internalAppID) && gfield("p4e.drop", refOf(entry)) == specB2U(relatedFAR.applyAction&ActionDrop != 0 || relatedQER.dlStatus == ie.GateStatusClosed) && gfield("p4e.teid", refOf(entry)) == uint64(relatedFAR.tunnelTEID) && gfield("p4e.qfi", refOf(entry)) == uint64(qfi) && gfield("p4e.tc", refOf(entry)) == uint64(tc) && gfield("p4e.meter", refOf(entry)) == uint64(appMeterIdx) && gfield("p4e.ctr", refOf(entry)) == uint64(pdr.ctrID)
 //@   requires t != nil
 //@   requires C16.termdown.envelope: tc <= 3 && qfi < 64 && int64(appMeterIdx) < oracleP4MeterSize(p4constants.MeterPreQosPipeAppMeter) && int64(pdr.ctrID) < oracleP4CounterSize(p4constants.CounterPreQosPipePreQosCounter)
@@ -1400,7 +1400,7 @@ func specEntryStruct(e *p4.TableEntry) bool {
 //@   ensures C04.termdown.fwd: err == nil && !(relatedFAR.applyAction&ActionDrop != 0 || relatedQER.dlStatus == ie.GateStatusClosed) ==> specEntryShape(entry, 5) && entry.TableId == p4constants.TablePreQosPipeTerminationsDownlink && specEntryAction(entry).ActionId == p4constants.ActionPreQosPipeDownlinkTermFwd && glen("p4p") == old[int](glen("p4p"))+5 && specP4ParamLogged(gentry("p4p", old[int](glen("p4p"))), specEntryAction(entry), "teid", uint64(relatedFAR.tunnelTEID)) && specP4ParamLogged(gentry("p4p", old[int](glen("p4p"))+1), specEntryAction(entry), "qfi", uint64(qfi)) && specP4ParamLogged(gentry("p4p", old[int](glen("p4p"))+2), specEntryAction(entry), "tc", uint64(tc)) && specP4ParamLogged(gentry("p4p", old[int](glen("p4p"))+3), specEntryAction(entry), "app_meter_idx", uint64(appMeterIdx)) && specP4ParamLogged(gentry("p4p", old[int](glen("p4p"))+4), specEntryAction(entry), "ctr_idx", uint64(pdr.ctrID))
 
 //@ func (t *P4rtTranslator) BuildGTPTunnelPeerTableEntry(tunnelPeerID uint8, tunnelParams tunnelParams) (entry *p4.TableEntry, err error)
-//@   freshwrites p4.TableEntry, p4.TableAction, p4.TableAction_Action, p4.Action
+//@   freshwrites p4.TableEntry, p4.TableAction, p4.TableAction_Action, p4.Action, p4.FieldMatch, p4.FieldMatch_Exact, p4.FieldMatch_Exact_, p4.FieldMatch_LPM, p4.FieldMatch_Lpm, p4.FieldMatch_Range, p4.FieldMatch_Range_, p4.FieldMatch_Ternary, p4.FieldMatch_Ternary_, p4.Action_Param, E:uint8
 //@   requires t != nil
 //@   ensures C04.peer.result: (err == nil) <==> (entry != nil)
 //@   ensures C16.peer.shape: err == nil ==> specEntryShape(entry, 3) && !allocated(entry) && entry.TableId == p4constants.TablePreQosPipeTunnelPeers && specEntryAction(entry).ActionId == p4constants.ActionPreQosPipeLoadTunnelParam
@@ -1413,12 +1413,12 @@ func specEntryStruct(e *p4.TableEntry) bool {
 //@   ensures C16.meter.entry: entry != nil && !allocated(entry) && entry.MeterId == meterID && entry.Index != nil && entry.Index.Index == int64(cellID) && entry.Config == config
 
 //@ func (t *P4rtTranslator) BuildInterfaceTableEntry(ipNet *net.IPNet, sliceID uint8, isCore bool) (entry *p4.TableEntry, err error)
-//@   freshwrites p4.TableEntry, p4.TableAction, p4.TableAction_Action, p4.Action
+//@   freshwrites p4.TableEntry, p4.TableAction, p4.TableAction_Action, p4.Action, p4.FieldMatch, p4.FieldMatch_Exact, p4.FieldMatch_Exact_, p4.FieldMatch_LPM, p4.FieldMatch_Lpm, p4.FieldMatch_Range, p4.FieldMatch_Range_, p4.FieldMatch_Ternary, p4.FieldMatch_Ternary_, p4.Action_Param, E:uint8
 //@   requires t != nil && ipNet != nil
 //@   requires C16.iface.envelope: sliceID <= 15 && len(ipNet.IP) == 4 && len(ipNet.Mask) == 4 && 1 <= specMaskOnes(ipNet.Mask)
 //@   ensures C04.iface.result: (err == nil) <==> (entry != nil)
 //@   ensures C16.iface.shape: err == nil ==> specEntryShape(entry, 3) && !allocated(entry) && entry.TableId == p4constants.TablePreQosPipeInterfaces && specEntryAction(entry).ActionId == p4constants.ActionPreQosPipeSetSourceIface
-//@   ensures C04.iface.key: err == nil ==> glen("p4f") == old[int](glen("p4f"))+1 && specP4FieldLogged(gentry("p4f", old[int](glen("p4f"))), entry, "ipv4_dst_prefix", 2, uint64(ip2int(ipNet.IP)), uint64(uint8(specMaskOnes(ipNet.Mask))))
+//@   ensures C04.iface.key: err == nil ==> glen("p4f") == old[int](glen("p4f"))+1 && specP4FieldLogged(gentry("p4f", old[int](glen("p4f"))), entry, "ipv4_dst_prefix", 2, uint64(old[uint32](ip2int(ipNet.IP))), uint64(uint8(old[int](specMaskOnes(ipNet.Mask)))))
 //@   ensures C04.iface.core: err == nil && isCore ==> glen("p4p") == old[int](glen("p4p"))+3 && specP4ParamLogged(gentry("p4p", old[int](glen("p4p"))), specEntryAction(entry), "src_iface", core) && specP4ParamLogged(gentry("p4p", old[int](glen("p4p"))+1), specEntryAction(entry), "direction", DirectionDownlink) && specP4ParamLogged(gentry("p4p", old[int](glen("p4p"))+2), specEntryAction(entry), "slice_id", uint64(sliceID))
 //@   ensures C04.iface.access: err == nil && !isCore ==> glen("p4p") == old[int](glen("p4p"))+3 && specP4ParamLogged(gentry("p4p", old[int](glen("p4p"))), specEntryAction(entry), "src_iface", access) && specP4ParamLogged(gentry("p4p", old[int](glen("p4p"))+1), specEntryAction(entry), "direction", DirectionUplink) && specP4ParamLogged(gentry("p4p", old[int](glen("p4p"))+2), specEntryAction(entry), "slice_id", uint64(sliceID))
 
@@ -1457,7 +1457,7 @@ func specAppPorts(p pdr) portRange {
 }
 
 //@ func (t *P4rtTranslator) BuildApplicationsTableEntry(pdr pdr, sliceID uint8, internalAppID uint8) (entry *p4.TableEntry, err error)
-//@   freshwrites p4.TableEntry, p4.TableAction, p4.TableAction_Action, p4.Action
+//@   freshwrites p4.TableEntry, p4.TableAction, p4.TableAction_Action, p4.Action, p4.FieldMatch, p4.FieldMatch_Exact, p4.FieldMatch_Exact_, p4.FieldMatch_LPM, p4.FieldMatch_Lpm, p4.FieldMatch_Range, p4.FieldMatch_Range_, p4.FieldMatch_Ternary, p4.FieldMatch_Ternary_, p4.Action_Param, E:uint8
 //@   requires t != nil
 //@   requires C16.app.envelope: sliceID <= 15 && pdr.precedence <= 65534 && specAppPorts(pdr).low <= specAppPorts(pdr).high
 //@   ensures C04.app.result: (err == nil) <==> (entry != nil)
